@@ -30,6 +30,7 @@ GInit == [req |-> {}, sreq |-> {}, since |-> 0, aborted |-> {}, lost |-> {}, ord
           everAlive |-> {}, ran |-> {}, exok |-> {}, stamp |-> <<>>, preq |-> {}, stamp0 |-> <<>>, elect |-> FALSE,
           plans |-> 0,        \* number of plans opened after the first one (user triggers, re-distributions)
           reqby |-> <<>>,     \* reqby[p]: the instance that sent the last start request of p
+          utrig |-> FALSE,    \* the user's request has been issued
           sreqby |-> <<>>]    \* sreqby[p]: same for the last stop request   \* preq: requested by the current plan   \* stamp[p][v]: refresh stamp of p at v when p was requested
 
 Truth(st, p, i) == st.truth[p][i]
@@ -161,14 +162,17 @@ GStep(st, pre, gg0) ==
       g2 == [gg EXCEPT !.reqby = reqby1, !.sreqby = sreqby1, !.req = req1, !.sreq = (@ \ starts) \cup stops, !.stamp = stamp1, !.lost = lost1, !.ran = ran1,
                        !.exok = exok1, !.preq = @ \cup starts]
       \* the instance that runs the plan: where the user issued the trigger, else the Master
-      planners == IF T.trigger_node # 0 THEN {T.trigger_node} ELSE {v \in 1..T.n : st.alive[v] /\ st.master[v] = v}
+      \* (before the user's request, the plans are the automatic ones of the Master)
+      planners == IF T.trigger_node # 0 /\ (gg0.utrig \/ st.user) THEN {T.trigger_node}
+                  ELSE {v \in 1..T.n : st.alive[v] /\ st.master[v] = v}
       ab == {a \in DOMAIN T.apps : \E v \in planners : st.alive[v] /\ AbortNow(st, g2, a, v)}
   IN [g2 EXCEPT !.aborted = gg.aborted \cup ab,
                 \* F22: the instance running a plan entered ELECTION (all its jobs are aborted there)
                 !.elect = @ \/ (g2.preq # {} /\ \E v \in planners : st.alive[v] /\ st.fsm[v] = "ELECTION"),
                 !.since = IF st.reqs # <<>> THEN 0 ELSE IF st.a = "Tick" /\ st.n = 1 THEN @ + 1 ELSE @,
                 !.orders = [i \in 1..8 |-> gg.orders[i] + Cardinality({j \in DOMAIN st.orders : st.orders[j][1] = i})],
-                !.everAlive = @ \cup {i \in 1..T.n : st.alive[i]}]
+                !.everAlive = @ \cup {i \in 1..T.n : st.alive[i]},
+                !.utrig = @ \/ st.user]
 
 \* terminal formulas (the trace ran long enough for every job to end)
 Terminal(st, gg) ==
